@@ -3,32 +3,6 @@ From Verif Require Import model.Hub proofs.Hub_basics proofs.Hub_wf proofs.Hub_e
 Import ListNotations.
 Open Scope N_scope.
 
-(* nrs of Hub_transient_nr with the publish case repaired (its "change" had placeholders that cannot be inferred) *)
-Ltac nrs ::=
-  first
-  [ assumption
-  | lazymatch goal with
-    | |- NR ?ex ?h0 (publish ?h _ _) => change (NR ex h0 h); nrs
-    | |- NR _ _ (room_remove _ _ _) => apply nr_room_remove; nrs
-    | |- NR _ _ (rs_set _ _ _) => apply nr_rs_set; nrs
-    | |- NR _ _ (rs_del _ _) => apply nr_rs_del; nrs
-    | |- NR _ _ (remove_room_if_empty _ _) => apply nr_remove_room_if_empty; nrs
-    | |- NR _ _ (detach_conn _ _) => apply nr_detach_conn; nrs
-    | |- NR _ _ (drop_vt _ _ _) => apply nr_drop_vt; nrs
-    | |- NR _ _ (set_incall _ _ _ _) => apply nr_set_incall; nrs
-    | |- NR _ _ (scrub _ _) => apply nr_scrub; nrs
-    | |- NR _ _ (put_sess _ _ _) =>
-        first [ eapply nr_put_old; [nrs | eassumption | reflexivity | reflexivity | reflexivity | reflexivity ]
-              | apply nr_put_ex; [assumption | nrs] ]
-    | |- NR _ _ (set_rooms _ (pset _ _ _)) => eapply nr_pset; [nrs | eassumption | reflexivity]
-    | |- NR _ _ (set_rooms _ (pdel _ _)) => apply nr_pdel; nrs
-    | |- NR _ _ (fold_left _ _ _) => apply nr_fold_left; [nrs | intros; nrs]
-    | |- NR _ _ (match ?x with _ => _ end) => destruct x eqn:?; nrs
-    | |- NR ?ex ?h0 (?f ?h _ _ _) => change (NR ex h0 h); nrs
-    | |- NR ?ex ?h0 (?f ?h _ _) => change (NR ex h0 h); nrs
-    | |- NR ?ex ?h0 (?f ?h _) => change (NR ex h0 h); nrs
-    end ].
-
 Lemma nr_do_message ex h0 h sid s kindn to tag cb : NR ex h0 h -> nres ex h0 (do_message h sid s kindn to tag cb).
 Proof. intros B. unfold do_message. ngo. Qed.
 #[export] Hint Resolve nr_do_message : nrdb.
